@@ -1,6 +1,7 @@
 /- C20 line-protocol driver: `lake env lean --run Verif/C20/Driver.lean` -/
 import Verif.Common.Proto
 import Verif.C20.Model
+import Verif.C20.Glue
 open Lean Verif.Proto Verif.C20
 
 namespace Verif.C20.Driver
@@ -24,6 +25,85 @@ def ofOutcome (j : Json) : Except String Outcome :=
   | _ => do pure (.ok (← ofCps (← j.getObjVal? "ok")))
 
 def jStr (s : Str) : Json := Json.str (String.ofList s)
+
+def gerrTag : GErr → String
+  | .cmd e => errTag e
+  | .readError => "ReadError"
+  | .encoderError => "EncoderError"
+  | .osError => "OSError"
+  | .badRequest => "BadRequest"
+
+def ofItem (j : Json) : Except String Item :=
+  match j with
+  | Json.str "noneItem" => pure .noneItem
+  | Json.str "encCrash" => pure .encCrash
+  | _ => do pure (.std (← ofOutcome j))
+
+def ofIndent (j : Json) : Except String Indent :=
+  match j with
+  | Json.null => pure .none
+  | Json.bool true => pure .tru
+  | _ => do pure (.int (← j.getInt?))
+
+def ofOpts (j : Json) : Except String Opts := do
+  pure { properties := ← getBool j "properties", lnk := ← getBool j "lnk", color := ← getBool j "color",
+         indent := ← ofIndent (← j.getObjVal? "indent"), showStatus := ← getBool j "show_status",
+         predmod := ← getBool j "predmod", semi := ← getBool j "semi" }
+
+def ofCliIndent (j : Json) : Except String CliIndent :=
+  match j with
+  | Json.null => pure .absent
+  | Json.str "bare" => pure .bare
+  | _ => do pure (.val (← ofCps j))
+
+def ofCli (j : Json) : Except String CliArgs := do
+  pure { noProperties := ← getBool j "no_properties", noLnk := ← getBool j "no_lnk",
+         colorAlways := ← getBool j "color_always", indent := ← ofCliIndent (← j.getObjVal? "indent"),
+         showStatus := ← getBool j "show_status", predmod := ← getBool j "predmod",
+         semi := ← getBool j "semi" }
+
+def ofKind (s : String) : Except String PathArg :=
+  match s with
+  | "none" => pure .none
+  | "stream" => pure .stream
+  | "file" => pure .file
+  | "dir" => pure .dir
+  | _ => throw s!"bad kind {s}"
+
+def ofOptList (f : Json → Except String α) (j : Json) : Except String (Option α) :=
+  match j with
+  | Json.null => pure none
+  | _ => do pure (some (← f j))
+
+def ofContent (j : Json) : Except String Content := do
+  match j.getObjVal? "doc" with
+  | .ok d => pure (.doc (← getBool d "ok") (← (← getArr d "items").mapM ofItem))
+  | .error _ =>
+    match j.getObjVal? "rows" with
+    | .ok r =>
+      pure (.rows (← (← r.getArr?).toList.mapM (ofOptList (fun c => do (← c.getArr?).toList.mapM ofItem))))
+    | .error _ =>
+      let l ← getArr j "lines"
+      pure (.lines (← l.mapM (ofOptList ofItem)))
+
+def fnTag : Fn → String
+  | .load => "load" | .loads => "loads" | .decode => "decode" | .conv => "conv" | .encode => "encode"
+  | .highlight => "highlight"
+
+def argTag : Arg → String
+  | .stream => "stream" | .path => "path" | .text => "text" | .obj => "obj"
+
+def jKwVal : KwVal → Json
+  | .bool b => Json.bool b
+  | .indent .none => Json.null
+  | .indent .tru => Json.bool true
+  | .indent (.int n) => jInt n
+  | .semi => Json.str "SEMI"
+  | .none => Json.null
+
+def jEvent (e : Event) : Json :=
+  Json.mkObj [("f", Json.str (fnTag e.fn)), ("a", Json.str (argTag e.arg)),
+              ("kw", Json.arr (e.kw.map (fun (k, v) => Json.arr #[Json.str k, jKwVal v])).toArray)]
 
 def handle (j : Json) : Except String Json := do
   let op ← getStr j "op"
@@ -57,6 +137,36 @@ def handle (j : Json) : Except String Json := do
           | none => Json.null
         let itemsOk := (parts os).all (itemOkB fam p.tgtLines)
         pure (Json.mkObj [("doc", cps doc), ("split", split), ("items_ok", Json.bool itemsOk)])
+  | "session" => do
+    let kind ← ofKind (← getStr j "kind")
+    let content ← ofContent (← j.getObjVal? "content")
+    -- the API-level options: given directly, or derived from the command-line arguments
+    let viaCli := (j.getObjVal? "cli").isOk
+    let opts? : Option Opts ←
+      if viaCli then do pure (cliOpts (← ofCli (← j.getObjVal? "cli")))
+      else do pure (some (← ofOpts (← j.getObjVal? "opts")))
+    match opts? with
+    | none => pure Json.null       -- `--indent` value outside the modelled spellings
+    | some o =>
+      let r := session src tgt o nproj kind content
+      let evs := Json.arr (r.events.map jEvent).toArray
+      match r.out with
+      | .error e => pure (Json.mkObj [("err", Json.str (gerrTag e)), ("events", evs)])
+      | .ok doc =>
+        let printed := if viaCli then doc ++ ['\n'] else doc
+        match plan src tgt nproj with
+        | .error _ => pure (jErr "unreachable")
+        | .ok p =>
+          let split : Json :=
+            match readBack p.tgt p.tgtLines doc with
+            | some its => jList cps its
+            | none => Json.null
+          let itemsOk : Bool :=
+            match readBack p.tgt p.tgtLines doc with
+            | some its => its.all (itemOkB (familyOf p.tgt) p.tgtLines)
+            | none => true
+          pure (Json.mkObj [("doc", cps printed), ("events", evs), ("split", split), ("items_ok", Json.bool itemsOk),
+                            ("highlight", Json.bool (highlights p o))])
   | _ => throw s!"bad op {op}"
 
 end Verif.C20.Driver
